@@ -97,6 +97,15 @@ def entry_points():
         pints.GaussianLogPrior(0.5, 0.1), pints.LogNormalLogPrior(-1, 0.2)))
     add('HierarchicalLogPosterior.sample_initial_parameters',
         lambda seed: hp.sample_initial_parameters(n_samples=2, seed=seed), gen_ok=False)
+    # no individual-level parameters at all (every dimension pooled or heterogeneous): another path through the sampler
+    lls2 = [chi.LogLikelihood(probes.ProbeMech(2, 1, tag='rsp%d' % i), chi.GaussianErrorModel(), [1.0, 2.0], [0.5, 1.0])
+            for i in range(2)]
+    hll2 = chi.HierarchicalLogLikelihood(lls2, chi.ComposedPopulationModel([chi.PooledModel(n_dim=2), chi.HeterogeneousModel()]))
+    hp2 = chi.HierarchicalLogPosterior(hll2, pints.ComposedLogPrior(
+        pints.GaussianLogPrior(1, 0.2), pints.GaussianLogPrior(1, 0.2), pints.LogNormalLogPrior(-1, 0.2),
+        pints.LogNormalLogPrior(-1, 0.2)))
+    add('HierarchicalLogPosterior[no individual-level parameters].sample_initial_parameters',
+        lambda seed: hp2.sample_initial_parameters(n_samples=2, seed=seed), gen_ok=False)
     return eps
 
 
